@@ -47,6 +47,14 @@ def run(ctx):
             if thorough:
                 ctx.corr(hxt, args + ["--variant", tag, "--debug", "--same-as", os.path.join(ctx.build, "cases_%s.v" % what)],
                          cases_name="cases_%s_%s_debug.v" % (what, tag))
+    # callbacks held at a gate (harness/cmd/c17/hold.go): PopOrWait's waitCondition / the Counter's subscriber are supplied by the
+    # harness and block at a gate; while a caller is held INSIDE its callback, Push / Pop / SignalShutdown / Size / size waits
+    # (Set / Update / Get / value waits) of other goroutines arrive; each is waited for until it returned, is parked on a
+    # condition variable (ticket counters) or is blocked on the object's mutex (goroutine wait reason), then the gate opens.
+    # Systematic (which evaluation is held) x (interfering operations) x (operations afterwards) + seeded random event lists;
+    # judged by the property (nobody parked on a true condition, returned waits had a true condition); the stack cases are
+    # evaluated in Coq, where the callback is a step of its own with the mutex held (Corr.v hsys)
+    ctx.corr(hx, ["scripted", "--what", "hold", "--n", "900" if thorough else "200"], cases_name="cases_hold.v")
     nfree = "25" if thorough else "4"
     for tag, hxt in variants:
         ctx.corr(hxt, ["free", "--variant", tag, "--n", "2"], cases_name="free_%s.v" % tag)
@@ -78,7 +86,12 @@ def run(ctx):
         "(a StarvingMutex starves by design)",
         "scripted comparison: one operation is released at a time and the harness waits for quiescence, so races between "
         "two woken goroutines for the same resource are excluded by the generator (at most one PopOrWait thread per case)",
-        "Counter: int overflow of value+delta is outside the model (values are unbounded integers); subscribers are not modelled",
+        "Counter: int overflow of value+delta is outside the model (values are unbounded integers); subscribers are not modelled "
+        "in Coq (a subscriber held inside Set/Update while waits and updates arrive is judged by the Go-side oracle only)",
+        "PopOrWait's wait condition is modelled as a callback that reads one boolean when it returns; it is evaluated as a step of "
+        "its own with the stack's mutex held (tied to the code by the held-callback cases: operations arriving while a caller is "
+        "inside its callback must be blocked on the mutex, decided from the goroutine wait reasons sync.(RW)Mutex.(R)Lock of the Go "
+        "runtime, go1.23); callbacks that call back into the same Stack/Counter dead-lock by design of the code and are not generated",
     ]
 
 
